@@ -107,6 +107,63 @@ func init() {
 			}
 			return []Val{s.freshStr("bufstr")}
 		}
+		// strings.Builder: what has been written so far is a ghost string per builder; a builder declared in the
+		// activation starts empty
+		sbKey := func(s *State, recv Val) (string, Val, bool) {
+			ref := s.globRef(recv)
+			if ref == "" {
+				return "", Val{}, false
+			}
+			key := "sbuilder|" + ref
+			if cur, ok := s.ghost[key]; ok {
+				return key, cur, true
+			}
+			before := s.freshStr("sbold")
+			if _, unk := s.ghost["bufunknown|"+key]; !unk {
+				s.assume(implies(app(">=", ref, s.alloc0), eq(before.S, s.c.lit(""))))
+			}
+			return key, before, true
+		}
+		L["(*strings.Builder).WriteString"] = func(s *State, site ssa.Instruction, a []Val) []Val {
+			s.used("(*strings.Builder).WriteString/String: the builder holds the concatenation of what was written, in order")
+			if key, cur, ok := sbKey(s, a[0]); ok {
+				s.ghost[key] = s.cat(cur, a[1])
+			}
+			return []Val{{T: intT, S: s.define("len", sInt, app("blen", a[1].S))}, {T: errorT, S: "nilI"}}
+		}
+		L["(*strings.Builder).WriteByte"] = func(s *State, site ssa.Instruction, a []Val) []Val {
+			if key, cur, ok := sbKey(s, a[0]); ok {
+				s.ghost[key] = s.cat(cur, s.freshStr("sbbyte"))
+			}
+			return []Val{{T: errorT, S: "nilI"}}
+		}
+		L["(*strings.Builder).WriteRune"] = func(s *State, site ssa.Instruction, a []Val) []Val {
+			if key, cur, ok := sbKey(s, a[0]); ok {
+				s.ghost[key] = s.cat(cur, s.freshStr("sbrune"))
+			}
+			return []Val{s.freshVal(intT, "n"), {T: errorT, S: "nilI"}}
+		}
+		L["(*strings.Builder).String"] = func(s *State, site ssa.Instruction, a []Val) []Val {
+			if _, cur, ok := sbKey(s, a[0]); ok {
+				return []Val{cur}
+			}
+			return []Val{s.freshStr("sbstr")}
+		}
+		L["(*strings.Builder).Len"] = func(s *State, site ssa.Instruction, a []Val) []Val {
+			if _, cur, ok := sbKey(s, a[0]); ok {
+				return []Val{{T: intT, S: s.define("len", sInt, app("blen", cur.S))}}
+			}
+			return []Val{s.freshVal(intT, "sblen")}
+		}
+		L["(*strings.Builder).Grow"] = func(s *State, site ssa.Instruction, a []Val) []Val {
+			return nil
+		}
+		L["(*strings.Builder).Reset"] = func(s *State, site ssa.Instruction, a []Val) []Val {
+			if key, _, ok := sbKey(s, a[0]); ok {
+				s.ghost[key] = Val{T: strT, S: s.c.lit("")}
+			}
+			return nil
+		}
 		L["(*regexp.Regexp).ReplaceAllStringFunc"] = func(s *State, site ssa.Instruction, a []Val) []Val {
 			r := s.freshStr("replacedf")
 			clo := a[2].Clo
